@@ -262,8 +262,8 @@ class History:
         return d
 
     def relation(self, victim, addressed, target):
-        if victim is target:
-            return "target-of-read"
+        if victim is target or (target is not None and self.root(victim) is self.root(target)):
+            return "target-of-read"      # the registry read through, or a shallow alias sharing its table and string cache
         for a in addressed:
             if a.src == victim.idx:
                 return "source-of-addressed"
